@@ -19,7 +19,8 @@ RULE = (
     "1024}; every single missing file of {summary.txt, volume directory, leader, each image}; "
     "leader and volume-directory truncation at every record boundary +-1 and every 64th byte "
     "(quick) or every byte (thorough). Faults are served by the vtrace filesystem and by really "
-    "truncated local files. Oracle: open_alos2 raises an Exception (a missing file: an OSError "
+    "truncated local files; a part of the faults is applied IN PLACE after a successful open (and "
+    "full load) of the intact product at the same path in the same process. Oracle: open_alos2 raises an Exception (a missing file: an OSError "
     "subclass); if it returns, the complete tree incl. all pixel values must equal the undamaged "
     "reference (so a silently short image is a violation); never a BaseException-only type; each "
     "case runs under a 120 s watchdog. Non-trivial: the cut is strictly inside the file."
@@ -97,6 +98,26 @@ def run_case(case):
     if case.get("rpc"):
         opts["records_per_chunk"] = case["rpc"]
     out = []
+    old_fixed = harness.FIXED_NAME
+    if case.get("warm"):
+        # the intact product is opened (and loaded) first at the very same path, then damaged in
+        # place: whatever the library remembers about the intact file must not hide the damage
+        harness.FIXED_NAME = f"warm-{__import__('os').getpid()}-{harness.case_hash(case)[:10]}"
+        with harness.Materialised(files, case["fs"]) as intact:
+            tree, err = harness.guard(harness.open_tree, intact.url, **opts)
+            if err is None:
+                _, err = harness.guard(harness.flatten, tree)
+            if err is not None:
+                harness.FIXED_NAME = old_fixed
+                return [harness.disc("exception", "open of the intact product", "a tree", harness.exc_text(err))]
+        what += " after a successful open of the intact product at the same path"
+    try:
+        return _judge_damaged(case, damaged, opts, what, ref, out)
+    finally:
+        harness.FIXED_NAME = old_fixed
+
+
+def _judge_damaged(case, damaged, opts, what, ref, out):
     with harness.Materialised(damaged, case["fs"]) as prod:
         try:
             with Watchdog(120):
@@ -138,6 +159,7 @@ def enum_cases(tier):
         for role in roles:
             for fs in ("vtrace", "local"):
                 yield {"level": level, "fault": "missing", "file": role, "fs": fs}
+                yield {"level": level, "fault": "missing", "file": role, "fs": fs, "warm": True}
         for role in ("IMG0", "IMG1"):
             n = len(files[roles[role]])
             if tier == "quick":
@@ -157,6 +179,8 @@ def enum_cases(tier):
                     if tier == "quick" and role == "IMG0" and cut not in boundary and rpc not in (1, N + 1):
                         continue
                     yield {"level": level, "fault": "truncate", "file": role, "cut": cut, "rpc": rpc, "fs": "vtrace" if (cut + j) % 2 else "local"}
+                    if (cut in boundary and rpc in (1, 1024)) or (tier != "quick" and cut % 3 == j % 3):
+                        yield {"level": level, "fault": "truncate", "file": role, "cut": cut, "rpc": rpc, "fs": "local" if (cut + j) % 2 else "vtrace", "warm": True}
         for role in ("LED", "VOL"):
             n = len(files[roles[role]])
             if tier == "quick":
@@ -169,6 +193,8 @@ def enum_cases(tier):
                 cuts = range(n) if role == "VOL" else set(range(0, n, 7)) | set(leader_boundaries(level))
             for cut in sorted(cuts):
                 yield {"level": level, "fault": "truncate", "file": role, "cut": cut, "fs": "vtrace" if cut % 2 else "local"}
+                if cut % 5 == 0:
+                    yield {"level": level, "fault": "truncate", "file": role, "cut": cut, "fs": "local" if cut % 2 else "vtrace", "warm": True}
 
 
 @st.composite
@@ -181,6 +207,7 @@ def random_cuts(draw):
         "mod": True,
         "rpc": draw(st.sampled_from([1, 2, 3, N, N + 1, 1024])),
         "fs": draw(st.sampled_from(["vtrace", "local"])),
+        "warm": draw(st.booleans()),
     }
 
 
@@ -193,6 +220,8 @@ def plan(tier):
 
 def classify(case):
     labels = [f"fault={case['fault']}", f"file={case['file'][:3]}", f"fs={case['fs']}", f"level={case['level']}"]
+    if case.get("warm"):
+        labels.append("after-intact-open")
     if case["fault"] == "missing":
         return True, labels
     return case.get("mod") or case["cut"] > 0, labels
